@@ -539,9 +539,14 @@ def _eliminate_parents_upper(
         branchpoint_solves[bpil],
     )
 
+    # The parent couples to the branchpoint through its actual last compartment. If
+    # the parent branch is padded (it has fewer compartments than another branch in
+    # its level), this is not the last (padded) index of the branch.
+    last_of_parent = idx.first(bil) + np.asarray(ncomp_per_branch)[bil] - 1
+
     # Update the diagonal elements and `b` in `Ax=b` (called `solves`).
-    diags = diags.at[idx.last(bil)].add(new_diag)
-    solves = solves.at[idx.last(bil)].add(new_solve)
+    diags = diags.at[last_of_parent].add(new_diag)
+    solves = solves.at[last_of_parent].add(new_solve)
     branchpoint_conds_parents = branchpoint_conds_parents.at[bil].set(0.0)
 
     return diags, solves, branchpoint_conds_parents
@@ -571,8 +576,12 @@ def _eliminate_parents_lower(
 ):
     bil = pil[:, 0]
     bpil = pil[:, 1]
+    # See `_eliminate_parents_upper()`: actual (not padded) last compartment.
+    last_of_parent = idx.first(bil) + np.asarray(ncomp_per_branch)[bil] - 1
     branchpoint_solves = branchpoint_solves.at[bpil].add(
-        -solves[idx.last(bil)] * branchpoint_weights_parents[bil] / diags[idx.last(bil)]
+        -solves[last_of_parent]
+        * branchpoint_weights_parents[bil]
+        / diags[last_of_parent]
     )
     branchpoint_weights_parents = branchpoint_weights_parents.at[bil].set(0.0)
     return branchpoint_weights_parents, branchpoint_solves
